@@ -401,12 +401,26 @@ Section Extractor.
     if t_is_good t' then t_seq t' else seq_infinite.
 End Extractor.
 
-(* Properties::is_alternation_literal *)
+(* Properties::is_literal: a literal, or a concatenation whose members all are (regex-syntax
+   Properties::literal / ::concat; every other constructor sets it to false) *)
+Fixpoint is_literal_prop (h : hir) : bool :=
+  match h with
+  | HLit _ => true
+  | HConcat hs => (fix go (l : list hir) : bool :=
+                     match l with [] => true | x :: t => is_literal_prop x && go t end) hs
+  | _ => false
+  end.
+
+(* Properties::is_alternation_literal: a literal; an alternation whose branches all satisfy
+   is_literal (Properties::union); a concatenation whose members all satisfy is_alternation_literal
+   (Properties::concat); false for everything else *)
 Fixpoint is_alternation_literal (h : hir) : bool :=
   match h with
   | HLit _ => true
   | HAlt hs => (fix go (l : list hir) : bool :=
-                  match l with [] => true | x :: t => is_alternation_literal x && go t end) hs
+                  match l with [] => true | x :: t => is_literal_prop x && go t end) hs
+  | HConcat hs => (fix go (l : list hir) : bool :=
+                     match l with [] => true | x :: t => is_alternation_literal x && go t end) hs
   | _ => false
   end.
 
